@@ -203,7 +203,7 @@ impl Engine for VcUpdate {
             // quick: in two-segment documents the first segment comes from a core subset (all prose / front-matter /
             // verbatim / glued-title segments and every fifth scrut block variant); thorough: everything
             // (three-segment documents: the same restriction on the first segment, the other two range over everything)
-            let core = |i: usize| i < 17 || (i - 17) % 5 == 0;
+            let core = |i: usize| i < 20 || (i - 20) % 5 == 0;
             !((quick && segs.len() == 2 && !core(segs[0])) || (segs.len() == 3 && !core(segs[0])))
         }).flat_map(move |segs| {
             let total: usize = segs.iter().map(|i| lens[*i]).sum();
